@@ -302,6 +302,36 @@ def param_magnitude_check(seed):
     return None
 
 
+def late_start_check(kind, seed, t0=5.0):
+    """initial time 5, output grid starting there: the first row is the initial state, row k is the state of the path at t_k,
+    consecutive rows differ by V x counts.  -> None or what fails"""
+    spec = dict(nS=3, x0=[30, 3, 0], kind="corpus", events=[
+        dict(c="3/2", form=["mass", 0, 1], trans=[dict(tt="T", o=0, d=1, mag=1)]),
+        dict(c="1/2", form=["lin", 1, None], trans=[dict(tt="T", o=1, d=2, mag=1)])])
+    m = build(spec)
+    m.initial_values = ([30.0, 3.0, 0.0], np.float64(t0))
+    g = [t0, t0 + 0.25, t0 + 0.75, t0 + 1.5, t0 + 3.0]
+    (Xg, Jg, tg), cap = grid_runs(m, g, kind, 1, True, seed)
+    raw = raw_runs(m, g[-1], 1, True, seed)[0]
+    X, Jc = np.asarray(Xg[0], dtype=float), np.asarray(Jg[0], dtype=float)
+    if X.shape != (len(g), 3):
+        return "state array of shape %s for %d requested times" % (X.shape, len(g))
+    if X[0].tolist() != [30.0, 3.0, 0.0]:
+        return "initial time %r, grid starting there: the first row is %s, the initial state is [30, 3, 0]" % (t0, X[0].tolist())
+    if float(np.asarray(raw[2]).ravel()[0]) != t0:
+        return "initial time %r: the raw path starts at time %r" % (t0, float(np.asarray(raw[2]).ravel()[0]))
+    want_rows, want_cnts = oracle_rows(raw, g, 2)
+    rows = int_rows(X)
+    if rows != want_rows:
+        k = [i for i in range(len(g)) if rows is None or rows[i] != want_rows[i]][0]
+        return "initial time %r: row %d (t=%r) is %s but the path is at %s at that time" % (t0, k, g[k], X[k].tolist(), want_rows[k])
+    V = np.array(spec_V(spec), dtype=float)
+    for k in range(len(g) - 1):
+        if not np.array_equal(X[k + 1] - X[k], V @ Jc[k]):
+            return "initial time %r: rows %d and %d differ by %s, V x counts = %s" % (t0, k, k + 1, (X[k + 1] - X[k]).tolist(), (V @ Jc[k]).tolist())
+    return None
+
+
 # ------------------------------------------------------------------ case generation
 def make_grid(rng, raw, Tend, extinct):
     """grid over [0, Tend]; returns (grid, kind). Points are multiples of 1/64 (never an event time) except Tend"""
@@ -519,6 +549,14 @@ def run(ck):
         # one run per check with many events of one transition inside a single output interval (several hundred)
         if not many_done and spec["kind"] == "corpus":
             many_done = True
+            for kd, sd in (("list", 1), ("array", 2), ("tuple", 3)):
+                try:
+                    bad = late_start_check(kd, sd)
+                except SimTimeout:
+                    bad = None
+                ck.case(dict(kind="late-start", grid_kind=kd, seed=sd), nontrivial=True)
+                if bad:
+                    ck.violation("first-row/late-start", bad, dict(kind="late-start", grid_kind=kd, seed=sd))
             for sd in (1, 2):
                 try:
                     bad = param_magnitude_check(sd)
@@ -623,6 +661,8 @@ def shrink(case, V, cls):
 
 def replay(ck, data):
     case = dict(data["input"])
+    if case.get("kind") == "late-start":
+        return late_start_check(case["grid_kind"], case["seed"])
     if case.get("kind") == "param-magnitude":
         return param_magnitude_check(case["seed"])
     m = build(case["spec"])
